@@ -3,7 +3,7 @@
   index, per-axis offset arithmetic, covering / injectivity of `pieceEntityIndices`, `scatter`.
 -/
 import FcModel.Spec.C06
-namespace Fc
+namespace Fc.C06
 
 /-- component-wise `<` of an index tuple and a shape of the same length -/
 def AllLt : List Nat → List Nat → Prop
@@ -395,4 +395,4 @@ theorem mergeLoop_agree {α} (G : Nat → α) (idxOf : List Nat → List Nat) (c
           · exact Or.inr ⟨by rw [hlen]; exact hlt, l, hl', hgl⟩)
     exact ⟨this.1, this.2.trans hlen⟩
 
-end Fc
+end Fc.C06
